@@ -189,10 +189,25 @@ def execute(case, res):
                     res.probe('link_autoremoved_by_component')
             del pending[:]
 
+    def sync_limbo():
+        # While a removal is still queued in a hub window the statement leaves open whether the links that touch the removed
+        # objects are already gone ("immediately") or go when the message is delivered: the model follows what the collection shows.
+        # When the window closes they must be gone (flush_pending + oracle).
+        if not pending:
+            return
+        real = list(w.dc.external_links)
+        for what, x in pending:
+            cids = [c for c in x.components if c.parent is x] if what == 'data' else x
+            for r in list(m.links):
+                if any(any(c is y for y in r.cids) for c in cids) and not any(r.obj is o for o in real):
+                    m.links.remove(r)
+                    res.probe('link_autoremoved_before_delivery')
+
     for op in case['ops']:
         k = op[0]
         res.nops += 1
         dc = w.dc
+        sync_limbo()
         if w.cms and any(kk == 'links' for kk, _ in w.cms) and k in ('add_link', 'remove_link', 'append', 'remove', 'remove_comp'):
             res.probe('ops_in_link_delay_window')
         try:
